@@ -1,3 +1,4 @@
+#pragma once
 // Correspondence harness, implementation side (DESIGN 2.3): drives the repo's own translation
 // units through their API on the cases of a text file and prints results as hex floats.
 // Private members are read (never written, except where a case kind says so) through the
@@ -76,48 +77,10 @@ static std::shared_ptr<PhaseSpace> mkps(unsigned n, unsigned nb,
     return std::make_shared<PhaseSpace>(qmin, qmax, 1.0, pmin, pmax, 1.0, nullptr, 1.0, 1.0, filling, 1.0);
 }
 
-// ---------------------------------------------------------------------------------------
-// kick <id> <dir:x|y> <n> <nb> <it> ; offs (n*nb) ; data (nb*n*n)
-// prints: table (n*nb*it entries idx:w), out (nb*n*n)
-static void do_kick()
-{
-    std::string id = next();
-    std::string dir = next();
-    unsigned n = nextl(), nb = nextl(), it = nextl();
-    std::vector<meshaxis_t> offs(n * nb);
-    for (auto& o : offs) o = nextf();
-    auto in = mkps(n, nb);
-    auto out = mkps(n, nb);
-    for (size_t i = 0; i < (size_t)nb * n * n; i++) in->getData()[i] = nextf();
-    KickMap km(in, out, static_cast<SourceMap::InterpolationType>(it), false,
-               dir == "x" ? KickMap::Axis::x : KickMap::Axis::y, nullptr);
-    km.swapOffset(offs);
-    km.apply();
-    printf("case %s\ntable", id.c_str());
-    for (size_t k = 0; k < (size_t)n * nb * it; k++) { printf(" %u", km._hinfo[k].index); pf(km._hinfo[k].weight); }
-    printf("\nout");
-    for (size_t i = 0; i < (size_t)nb * n * n; i++) pf(out->getData()[i]);
-    printf("\nend\n");
-}
 
-// coeffs <id> <it> <count> f...   -> weights for each f
-static void do_coeffs()
-{
-    std::string id = next();
-    unsigned it = nextl();
-    size_t cnt = nextl();
-    printf("case %s\n", id.c_str());
-    for (size_t i = 0; i < cnt; i++) {
-        interpol_t w[4] = {0, 0, 0, 0};
-        SourceMap::calcCoefficiants(w, nextf(), it);
-        printf("w");
-        for (unsigned j = 0; j < it; j++) pf(w[j]);
-        printf("\n");
-    }
-    printf("end\n");
-}
-
-int main(int argc, char** argv)
+// token-stream main loop shared by all harness programs
+#include <functional>
+static int run_main(int argc, char** argv, const std::map<std::string, std::function<void()>>& tbl)
 {
     std::ios::sync_with_stdio(true);
     std::istream* is = &std::cin;
@@ -127,9 +90,9 @@ int main(int argc, char** argv)
     while (*is >> t) toks.push_back(t);
     while (more()) {
         std::string k = next();
-        if (k == "kick") do_kick();
-        else if (k == "coeffs") do_coeffs();
-        else { fprintf(stderr, "unknown case kind %s\n", k.c_str()); return 3; }
+        auto it = tbl.find(k);
+        if (it == tbl.end()) { fprintf(stderr, "unknown case kind %s\n", k.c_str()); return 3; }
+        it->second();
         fflush(stdout);
     }
     return 0;
